@@ -133,7 +133,7 @@ pub fn run(rep: &mut Report) {
                 let p = collision_model(b, a, top, *n0 as f64, *n1 as f64, *n2 as f64);
                 let degenerate = *n1 == 0 && *n2 == 0;
                 let cost = (ntot.min(5 * m as usize) as f64) * m as f64 + 30. * ntot as f64;
-                let budget: f64 = rep.tier.pick(1.0e9, 6e10);
+                let budget: f64 = rep.tier.pick(1.0e9, 1.5e10);
                 let tt = ((budget / cost) as u64).clamp(200, t1);
                 let minority = p.min(1. - p);
                 let enough = (tt as f64) * m as f64 * minority >= 400. && (tt as f64) * (m as f64 * minority).min(1.) >= 80.;
